@@ -435,6 +435,9 @@ func ackAlts(env *c16Env, set func(m proto.Message, v []string)) []alt {
 		{"stale", func(m proto.Message) { set(m, []string{env.staleAck}) }},
 		{"foreign", func(m proto.Message) { set(m, []string{env.foreignAck}) }},
 		{"garbage", func(m proto.Message) { set(m, []string{"not-a-uuid"}) }},
+		// well-formed, but the all-zero / all-ones value
+		{"nil-uuid", func(m proto.Message) { set(m, []string{"00000000-0000-0000-0000-000000000000"}) }},
+		{"max-uuid+live", func(m proto.Message) { set(m, []string{"ffffffff-ffff-ffff-ffff-ffffffffffff", env.liveAck}) }},
 		{"empty-string", func(m proto.Message) { set(m, []string{""}) }},
 		{"empty-list", func(m proto.Message) { set(m, nil) }},
 		{"mixed", func(m proto.Message) { set(m, []string{env.staleAck, "zz", env.liveAck}) }},
